@@ -244,31 +244,48 @@ theorem GoodT.node {t : Tree} (h : GoodT t) : Good (.tree t.lang t.origCharset t
     | none => exact Good.tree_none _ _
     | some l => exact Good.tree_some l _ hg
 
-theorem GoodL.addKid {kids : List Node} {n : Node} (hk : GoodL kids) (hn : Good n) : GoodL (addKid kids n) := by
+/-! ### Classes of nodes the tree builder stays inside
+
+The builder only ever makes text nodes, elements and CDATA nodes out of children it already holds,
+and attaches what the embedded-document parser hands back. Any predicate `P` closed under the first
+three is therefore an invariant of the builder as soon as the embedded documents satisfy it. Used
+twice: `Good` (no rootless embedded document) and the bound on the nesting of embedded documents. -/
+
+structure Closed (P : Node → Prop) : Prop where
+  text : ∀ s, P (.text s)
+  elt : ∀ n a kids, (∀ k ∈ kids, P k) → P (.elt n a kids)
+  cdata : ∀ kids, (∀ k ∈ kids, P k) → P (.cdata kids)
+
+def AllP (P : Node → Prop) (ns : List Node) : Prop := ∀ n ∈ ns, P n
+
+theorem good_closed : Closed Good := ⟨Good.text, fun n a _ h => Good.elt n a h, fun _ h => Good.cdata h⟩
+
+theorem Closed.addKid {P : Node → Prop} (hP : Closed P) {kids : List Node} {n : Node}
+    (hk : AllP P kids) (hn : P n) : AllP P (addKid kids n) := by
   unfold Model.addKid
   split
   · intro x hx
     rcases List.mem_append.1 hx with hx | hx
     · exact hk x (List.dropLast_subset _ hx)
     · simp only [List.mem_singleton] at hx
-      exact hx ▸ Good.text _
+      exact hx ▸ hP.text _
   · intro x hx
     rcases List.mem_append.1 hx with hx | hx
     · exact hk x hx
     · simp only [List.mem_singleton] at hx
       exact hx ▸ hn
 
-theorem Good.close {f : Frame} (h : GoodL f.kids) : Good f.close := by
+theorem Closed.close {P : Node → Prop} (hP : Closed P) {f : Frame} (h : AllP P f.kids) : P f.close := by
   unfold Frame.close
   split
-  · exact Good.elt _ _ h
-  · exact Good.cdata h
+  · exact hP.elt _ _ _ h
+  · exact hP.cdata _ h
 
 /-! ### Tree-builder invariants -/
 
-structure GoodB (b : BState) : Prop where
-  frames : ∀ fr ∈ b.stack, GoodL fr.kids
-  root : ∀ r, b.root = some r → Good r
+structure GoodB (P : Node → Prop) (b : BState) : Prop where
+  frames : ∀ fr ∈ b.stack, AllP P fr.kids
+  root : ∀ r, b.root = some r → P r
 
 def IsElt (f : Frame) : Prop := ∃ n a, f.kind = .elt n a
 def IsCd (f : Frame) : Prop := f.kind = .cdata
@@ -277,13 +294,13 @@ def IsCd (f : Frame) : Prop := f.kind = .cdata
 def Shape (S st : List Frame) : Prop :=
   (∃ e, IsElt e ∧ st = e :: S) ∨ (∃ c e, IsCd c ∧ IsElt e ∧ st = c :: e :: S)
 
-structure Inv (S : List Frame) (r0 : Option Node) (b : BState) : Prop where
+structure Inv (P : Node → Prop) (S : List Frame) (r0 : Option Node) (b : BState) : Prop where
   err : b.error = none
   shape : Shape S b.stack
-  good : GoodB b
+  good : GoodB P b
   root : b.root = r0
 
-variable (main : List Lang) (emb : Nat → Bytes → Option Tree)
+variable (main : List Lang) (emb : Nat → Bytes → Option Tree) {P : Node → Prop}
 
 theorem step_err {b : BState} (h : b.error ≠ none) (e : Event) : buildStep main emb b e = b := by
   unfold buildStep
@@ -312,31 +329,31 @@ theorem attach_cons {b : BState} {f : Frame} {rest : List Frame} (h : b.stack = 
     b.attach n = { b with stack := { f with kids := addKid f.kids n } :: rest } := by
   unfold BState.attach; rw [h]
 
-theorem attach_inv {S : List Frame} {r0 : Option Node} {b : BState} (h : Inv S r0 b) {n : Node} (hn : Good n) :
-    Inv S r0 (b.attach n) := by
+theorem attach_inv {S : List Frame} {r0 : Option Node} {b : BState} (h : Inv P S r0 b) {n : Node} (hP : Closed P) (hn : P n) :
+    Inv P S r0 (b.attach n) := by
   obtain ⟨herr, hshape, hgood, hroot⟩ := h
   rcases hshape with ⟨e, he, hs⟩ | ⟨c, e, hc, he, hs⟩
   · rw [attach_cons hs]
     refine ⟨herr, Or.inl ⟨{ e with kids := addKid e.kids n }, he, rfl⟩, ⟨?_, hgood.root⟩, hroot⟩
     intro fr hfr
     rcases List.mem_cons.1 hfr with hfr | hfr
-    · rw [hfr]; exact (hgood.frames e (by rw [hs]; simp)).addKid hn
+    · rw [hfr]; exact hP.addKid (hgood.frames e (by rw [hs]; simp)) hn
     · exact hgood.frames fr (by rw [hs]; simp [hfr])
   · rw [attach_cons hs]
     refine ⟨herr, Or.inr ⟨{ c with kids := addKid c.kids n }, e, hc, he, rfl⟩, ⟨?_, hgood.root⟩, hroot⟩
     intro fr hfr
     rcases List.mem_cons.1 hfr with hfr | hfr
-    · rw [hfr]; exact (hgood.frames c (by rw [hs]; simp)).addKid hn
+    · rw [hfr]; exact hP.addKid (hgood.frames c (by rw [hs]; simp)) hn
     · exact hgood.frames fr (by rw [hs]; exact List.mem_cons_of_mem _ hfr)
 
 /-- What the embedded-document parser hands back is well formed. -/
-def EmbGood : Prop := ∀ cs s t, emb cs s = some t → GoodT t
+def EmbGood (P : Node → Prop) : Prop := ∀ cs s t, emb cs s = some t → P (.tree t.lang t.origCharset t.root)
 
-theorem step_chars_inv (hemb : EmbGood emb) {S : List Frame} {r0 : Option Node} {b : BState}
-    (h : Inv S r0 b) (s : Bytes) : Inv S r0 (buildStep main emb b (.chars s)) := by
+theorem step_chars_inv (hP : Closed P) (hemb : EmbGood emb P) {S : List Frame} {r0 : Option Node} {b : BState}
+    (h : Inv P S r0 b) (s : Bytes) : Inv P S r0 (buildStep main emb b (.chars s)) := by
   unfold buildStep
   rw [if_neg (by rw [h.err]; simp)]
-  have hcd : Inv S r0 (match b.stack with
+  have hcd : Inv P S r0 (match b.stack with
       | f :: _ =>
         (match f.kind with
          | .cdata => b.attach (.text s)
@@ -345,7 +362,7 @@ theorem step_chars_inv (hemb : EmbGood emb) {S : List Frame} {r0 : Option Node} 
     split
     · rename_i f tl hst
       split
-      · exact attach_inv h (Good.text s)
+      · exact attach_inv h hP (hP.text s)
       · rename_i hk
         -- the top frame is an element: open a CDATA frame above it
         have hsh : Shape S ({ kind := FrameKind.cdata, kids := [] } :: b.stack) := by
@@ -355,20 +372,20 @@ theorem step_chars_inv (hemb : EmbGood emb) {S : List Frame} {r0 : Option Node} 
             cases hst
             exact absurd hc (by intro hc'; exact hk hc')
         refine attach_inv (b := { b with stack := { kind := FrameKind.cdata, kids := [] } :: b.stack })
-          ⟨h.err, hsh, ⟨?_, h.good.root⟩, h.root⟩ (Good.text s)
+          ⟨h.err, hsh, ⟨?_, h.good.root⟩, h.root⟩ hP (hP.text s)
         intro fr hfr
         rcases List.mem_cons.1 hfr with hfr | hfr
         · rw [hfr]; intro x hx; cases hx
         · exact h.good.frames fr hfr
-    · exact attach_inv h (Good.text s)
+    · exact attach_inv h hP (hP.text s)
   cases syncmlDataType b.stack with
-  | normal => exact attach_inv h (Good.text s)
+  | normal => exact attach_inv h hP (hP.text s)
   | wbxml =>
     dsimp only
     split
     · rename_i t ht
-      exact attach_inv h (hemb _ _ _ ht).node
-    · exact attach_inv h (Good.text s)
+      exact attach_inv h hP (hemb _ _ _ ht)
+    · exact attach_inv h hP (hP.text s)
   | clear => exact hcd
   | vobject => exact hcd
 
@@ -393,8 +410,8 @@ theorem leaveCdata_cd {b : BState} {c e : Frame} {rest : List Frame} (hs : b.sta
 
 /-- Leaving the CDATA section (if one is open) keeps the invariant; the element frame is on top
     afterwards. -/
-theorem leaveCdata_inv {S : List Frame} {r0 : Option Node} {b : BState} (h : Inv S r0 b) :
-    Inv S r0 b.leaveCdata := by
+theorem leaveCdata_inv (hP : Closed P) {S : List Frame} {r0 : Option Node} {b : BState} (h : Inv P S r0 b) :
+    Inv P S r0 b.leaveCdata := by
   rcases h.shape with ⟨e, he, hs⟩ | ⟨c, e, hc, he, hs⟩
   · rw [leaveCdata_elt hs he]; exact h
   · rw [leaveCdata_cd hs hc]
@@ -402,7 +419,7 @@ theorem leaveCdata_inv {S : List Frame} {r0 : Option Node} {b : BState} (h : Inv
     intro fr hfr
     rcases List.mem_cons.1 hfr with hfr | hfr
     · rw [hfr]
-      exact (h.good.frames e (by rw [hs]; simp)).addKid (Good.close (h.good.frames c (by rw [hs]; simp)))
+      exact hP.addKid (h.good.frames e (by rw [hs]; simp)) (hP.close (h.good.frames c (by rw [hs]; simp)))
     · exact h.good.frames fr (by rw [hs]; exact List.mem_cons_of_mem _ (List.mem_cons_of_mem _ hfr))
 
 theorem step_startElt {b : BState} (herr : b.error = none) (hs : b.leaveCdata.stack ≠ []) (n : Name) (a : List Attr) :
@@ -439,34 +456,34 @@ theorem step_endElt_cd {b : BState} (herr : b.error = none) {c e : Frame} {rest 
 
 /-- Closing the element whose frames sit above `S` (with `S` itself of the right shape, or empty at
     the root) re-establishes the invariant one level down. -/
-theorem step_endElt_inv {S0 : List Frame} {r0 : Option Node} {S : List Frame} {b : BState}
-    (h : Inv S r0 b) (hS : Shape S0 S) (n : Name) : Inv S0 r0 (buildStep main emb b (.endElt n)) := by
+theorem step_endElt_inv (hP : Closed P) {S0 : List Frame} {r0 : Option Node} {S : List Frame} {b : BState}
+    (h : Inv P S r0 b) (hS : Shape S0 S) (n : Name) : Inv P S0 r0 (buildStep main emb b (.endElt n)) := by
   rcases h.shape with ⟨e, he, hs⟩ | ⟨c, e, hc, he, hs⟩
   · rw [step_endElt_elt main emb h.err hs he]
-    refine attach_inv (b := { b with stack := S }) ⟨h.err, hS, ⟨?_, h.good.root⟩, h.root⟩
-      (Good.close (h.good.frames e (by rw [hs]; simp)))
+    refine attach_inv (b := { b with stack := S }) ⟨h.err, hS, ⟨?_, h.good.root⟩, h.root⟩ hP
+      (hP.close (h.good.frames e (by rw [hs]; simp)))
     intro fr hfr
     exact h.good.frames fr (by rw [hs]; simp [hfr])
   · rw [step_endElt_cd main emb h.err hs hc]
-    refine attach_inv (b := { b with stack := S }) ⟨h.err, hS, ⟨?_, h.good.root⟩, h.root⟩ (Good.close ?_)
+    refine attach_inv (b := { b with stack := S }) ⟨h.err, hS, ⟨?_, h.good.root⟩, h.root⟩ hP (hP.close ?_)
     · intro fr hfr
       exact h.good.frames fr (by rw [hs]; exact List.mem_cons_of_mem _ (List.mem_cons_of_mem _ hfr))
-    · exact (h.good.frames e (by rw [hs]; simp)).addKid
-        (Good.close (h.good.frames c (by rw [hs]; simp)))
+    · exact hP.addKid (h.good.frames e (by rw [hs]; simp))
+        (hP.close (h.good.frames c (by rw [hs]; simp)))
 
 /-! ### The builder over a whole run -/
 
 /-- Running the builder over a balanced sequence inside an open element: an error, or the same
     frames below, well-formed children, the root slot untouched. -/
-theorem bal_run (hemb : EmbGood emb) {es : List Event} (hb : Bal es) :
-    ∀ (S : List Frame) (r0 : Option Node) (b : BState), Inv S r0 b →
-      (es.foldl (buildStep main emb) b).error ≠ none ∨ Inv S r0 (es.foldl (buildStep main emb) b) := by
+theorem bal_run (hP : Closed P) (hemb : EmbGood emb P) {es : List Event} (hb : Bal es) :
+    ∀ (S : List Frame) (r0 : Option Node) (b : BState), Inv P S r0 b →
+      (es.foldl (buildStep main emb) b).error ≠ none ∨ Inv P S r0 (es.foldl (buildStep main emb) b) := by
   induction hb with
   | nil => intro S r0 b h; exact Or.inr h
   | chars s _ ih =>
     intro S r0 b h
     rw [List.foldl_cons]
-    exact ih S r0 _ (step_chars_inv main emb hemb h s)
+    exact ih S r0 _ (step_chars_inv main emb hP hemb h s)
   | pi t d _ ih =>
     intro S r0 b h
     rw [List.foldl_cons, step_pi]
@@ -474,11 +491,11 @@ theorem bal_run (hemb : EmbGood emb) {es : List Event} (hb : Bal es) :
   | elt n attrs n' _ _ ihb ihe =>
     intro S r0 b0 h0
     -- the element start first leaves an open CDATA section
-    have h := leaveCdata_inv h0
+    have h := leaveCdata_inv hP h0
     rw [List.foldl_cons, List.foldl_append, List.foldl_cons,
       step_startElt main emb h0.err h.shape.ne_nil]
     generalize b0.leaveCdata = b at h ⊢
-    have h1 : Inv b.stack r0 { b with stack := { kind := FrameKind.elt n attrs, kids := [] } :: b.stack } := by
+    have h1 : Inv P b.stack r0 { b with stack := { kind := FrameKind.elt n attrs, kids := [] } :: b.stack } := by
       refine ⟨h.err, Or.inl ⟨_, ⟨n, attrs, rfl⟩, rfl⟩, ⟨?_, h.good.root⟩, h.root⟩
       intro fr hfr
       rcases List.mem_cons.1 hfr with hfr | hfr
@@ -487,15 +504,15 @@ theorem bal_run (hemb : EmbGood emb) {es : List Event} (hb : Bal es) :
     rcases ihb b.stack r0 _ h1 with herr | h2
     · rw [step_err main emb herr, run_err main emb herr]
       exact Or.inl herr
-    · exact ihe S r0 _ (step_endElt_inv main emb h2 h.shape n')
+    · exact ihe S r0 _ (step_endElt_inv main emb hP h2 h.shape n')
 
 /-- The builder over the events of a whole successful run, from the initial state: an error, or a
     well-formed root. -/
-theorem build_root (hemb : EmbGood emb) {cs l : Nat} {pis1 pis2 body : List Event} {n : Name} {attrs : List Attr}
+theorem build_root (hP : Closed P) (hemb : EmbGood emb P) {cs l : Nat} {pis1 pis2 body : List Event} {n : Name} {attrs : List Attr}
     (h1 : OnlyPi pis1) (hb : Bal body) (h2 : OnlyPi pis2) :
     let b := (Event.startDoc cs l :: (pis1 ++ (Event.startElt n attrs ::
         (body ++ Event.endElt n :: (pis2 ++ [Event.endDoc]))))).foldl (buildStep main emb) {}
-    b.error ≠ none ∨ ∃ r, b.root = some r ∧ Good r := by
+    b.error ≠ none ∨ ∃ r, b.root = some r ∧ P r := by
   intro b
   -- startDoc
   have e0 : buildStep main emb {} (Event.startDoc cs l) =
@@ -511,7 +528,7 @@ theorem build_root (hemb : EmbGood emb) {cs l : Nat} {pis1 pis2 body : List Even
     show List.foldl _ _ _ = _
     rw [List.foldl_cons, e0, List.foldl_append, run_onlyPi main emb h1, List.foldl_cons, e1,
       List.foldl_append, List.foldl_cons]
-  have hinv : Inv [] none
+  have hinv : Inv P [] none
       { charset := cs, lang := main.find? (fun x => x.id == l),
         stack := [{ kind := FrameKind.elt n attrs, kids := [] }] } := by
     refine ⟨rfl, Or.inl ⟨_, ⟨n, attrs, rfl⟩, rfl⟩, ⟨?_, (fun r hr => by cases hr)⟩, rfl⟩
@@ -525,19 +542,19 @@ theorem build_root (hemb : EmbGood emb) {cs l : Nat} {pis1 pis2 body : List Even
     show buildStep main emb b' Event.endDoc = b'
     unfold buildStep; split <;> rfl
   rw [hb0, tail]
-  rcases bal_run main emb hemb hb [] none _ hinv with herr | h3
+  rcases bal_run main emb hP hemb hb [] none _ hinv with herr | h3
   · rw [step_err main emb herr]; exact Or.inl herr
   · -- close the root element
     rcases h3.shape with ⟨e, he, hs⟩ | ⟨c, e, hc, he, hs⟩
     · rw [step_endElt_elt main emb h3.err hs he]
-      refine Or.inr ⟨e.close, ?_, Good.close (h3.good.frames e (by rw [hs]; simp))⟩
+      refine Or.inr ⟨e.close, ?_, hP.close (h3.good.frames e (by rw [hs]; simp))⟩
       show (BState.attach _ _).root = _
       unfold BState.attach
       simp only [h3.root]
     · rw [step_endElt_cd main emb h3.err hs hc]
       refine Or.inr ⟨({ e with kids := addKid e.kids c.close } : Frame).close, ?_,
-        Good.close (f := { e with kids := addKid e.kids c.close })
-          ((h3.good.frames e (by rw [hs]; simp)).addKid (Good.close (h3.good.frames c (by rw [hs]; simp))))⟩
+        hP.close (f := { e with kids := addKid e.kids c.close })
+          (hP.addKid (h3.good.frames e (by rw [hs]; simp)) (hP.close (h3.good.frames c (by rw [hs]; simp))))⟩
       show (BState.attach _ _).root = _
       unfold BState.attach
       simp only [h3.root]
@@ -552,20 +569,20 @@ theorem treeOfWbxml_good : ∀ (f lang cs : Nat) (bs : Bytes) (t : Tree),
     have hemb : EmbGood (fun (cs : Nat) (bs : Bytes) =>
         match treeOfWbxml main f 0 cs bs with
         | .ok t => some t
-        | .error _ => none) := by
+        | .error _ => none) Good := by
       intro cs' s t' ht'
       dsimp only at ht'
       split at ht'
       · rename_i t'' heq
         cases ht'
-        exact treeOfWbxml_good f 0 cs' s _ heq
+        exact (treeOfWbxml_good f 0 cs' s _ heq).node
       · cases ht'
     split at h
     · cases h
     · rename_i hres
       obtain ⟨cs0, l0, pis1, n, attrs, body, pis2, hev, p1, p2, p3⟩ := parse_events_shape hres
       rw [hev] at h
-      have := build_root main _ hemb (cs := cs0) (l := l0) (n := n) (attrs := attrs) p1 p2 p3
+      have := build_root main _ good_closed hemb (cs := cs0) (l := l0) (n := n) (attrs := attrs) p1 p2 p3
       dsimp only at this
       split at h
       · cases h
@@ -574,6 +591,85 @@ theorem treeOfWbxml_good : ∀ (f lang cs : Nat) (bs : Bytes) (t : Tree),
         rcases this with he | ⟨r, hr, hg⟩
         · exact absurd herr he
         · exact Or.inr ⟨r, hr, hg⟩
+
+/-! ### Nesting of embedded documents is bounded by the tree stage's fuel
+
+`treeOfWbxml` hands the embedded-document parser the fuel `f - 1` and keeps the payload as text when
+the nested run fails for ANY reason, fuel included. So the tree it returns never nests embedded
+documents deeper than `f - 1` levels: deeper nesting is cut off by the model (text fallback), where
+the C code would recurse on. `embDepthN` counts `.tree` nodes along a path. -/
+
+mutual
+def embDepthN : Node → Nat
+  | .elt _ _ kids => embDepthL kids
+  | .text _ => 0
+  | .cdata kids => embDepthL kids
+  | .tree _ _ none => 1
+  | .tree _ _ (some r) => embDepthN r + 1
+def embDepthL : List Node → Nat
+  | [] => 0
+  | n :: rest => max (embDepthN n) (embDepthL rest)
+end
+
+/-- Nesting depth of embedded documents in a tree (0 = none). -/
+def embDepthT (t : Tree) : Nat :=
+  match t.root with
+  | some r => embDepthN r
+  | none => 0
+
+theorem embDepthL_le {D : Nat} : ∀ {ns : List Node}, (∀ k ∈ ns, embDepthN k ≤ D) → embDepthL ns ≤ D
+  | [], _ => by simp only [embDepthL]; omega
+  | n :: rest, h => by
+    simp only [embDepthL]
+    have h1 := h n (by simp)
+    have h2 := embDepthL_le (ns := rest) (fun k hk => h k (by simp [hk]))
+    omega
+
+theorem depthLe_closed (D : Nat) : Closed (fun n => embDepthN n ≤ D) :=
+  ⟨fun _ => by simp only [embDepthN]; omega,
+   fun _ _ _ h => by simp only [embDepthN]; exact embDepthL_le h,
+   fun _ h => by simp only [embDepthN]; exact embDepthL_le h⟩
+
+theorem embDepthN_tree (t : Tree) : embDepthN (.tree t.lang t.origCharset t.root) = embDepthT t + 1 := by
+  unfold embDepthT
+  cases t.root <;> simp only [embDepthN]
+
+/-- **The tree stage nests embedded documents at most `f - 1` deep.** -/
+theorem treeOfWbxml_embDepth : ∀ (f lang cs : Nat) (bs : Bytes) (t : Tree),
+    treeOfWbxml main f lang cs bs = .ok t → embDepthT t + 1 ≤ f
+  | 0, _, _, _, _, h => by simp [treeOfWbxml] at h
+  | f + 1, lang, cs, bs, t, h => by
+    rw [treeOfWbxml] at h
+    have hemb : EmbGood (fun (cs : Nat) (bs : Bytes) =>
+        match treeOfWbxml main f 0 cs bs with
+        | .ok t => some t
+        | .error _ => none) (fun n => embDepthN n ≤ f) := by
+      intro cs' s t' ht'
+      dsimp only at ht'
+      split at ht'
+      · rename_i t'' heq
+        cases ht'
+        rw [embDepthN_tree]
+        exact treeOfWbxml_embDepth f 0 cs' s _ heq
+      · cases ht'
+    split at h
+    · cases h
+    · rename_i hres
+      obtain ⟨cs0, l0, pis1, n, attrs, body, pis2, hev, p1, p2, p3⟩ := parse_events_shape hres
+      rw [hev] at h
+      have := build_root main _ (depthLe_closed f) hemb (cs := cs0) (l := l0) (n := n) (attrs := attrs) p1 p2 p3
+      dsimp only at this
+      split at h
+      · cases h
+      · rename_i herr
+        cases h
+        rcases this with he | ⟨r, hr, hg⟩
+        · exact absurd herr he
+        · have e : ∀ (t : Tree), t.root = some r → embDepthT t + 1 ≤ f + 1 := by
+            intro t ht
+            simp only [embDepthT, ht]
+            exact Nat.succ_le_succ hg
+          exact e _ hr
 
 /-! ### XML generation never reaches its `ub` flag on a well-formed tree -/
 
@@ -681,5 +777,38 @@ theorem treeToXml_noub (cfg : W2XCfg) (fuel : Nat) (t : Tree) (h : GoodT t) :
       refine OkF.bind ((xml_noub fuel).1 g _ _ _ _ hok) ?_
       intro st _
       exact True.intro
+
+/-! ### The structural generator budget `Tree.xmlFuel` suffices for every well-formed tree -/
+
+theorem Good.rooted {n : Node} (h : Good n) : rootedN n = true := (exists_ok_iff_rooted n).1 h
+
+theorem good_iff_rooted (n : Node) : Good n ↔ rootedN n = true := exists_ok_iff_rooted n
+
+/-- A well-formed node passes `okNode` at its own structural budget. -/
+theorem Good.okNode_xmlFuel {n : Node} (h : Good n) : okNode n.xmlFuel n = true :=
+  Lemmas.ParserSafe.okNode_xmlFuel n h.rooted
+
+theorem GoodL.okList_xmlFuelL {ns : List Node} (h : GoodL ns) : okList (Node.xmlFuelL ns) ns = true := by
+  obtain ⟨f, hf⟩ := okList_of_goodL ns h
+  exact okList_xmlFuelL_of_ok hf
+
+/-- `wbxml_tree_to_xml` with the budget `wbxml2xml` supplies (`t.xmlFuel`) on a well-formed tree:
+    success or a non-zero error code. Never `fuel`, `ub`, `crash`. -/
+theorem treeToXml_xmlFuel_safe (cfg : W2XCfg) (t : Tree) (h : GoodT t) : Safe (treeToXml cfg t.xmlFuel t) := by
+  refine treeToXml_safe cfg _ t ?_
+  rcases h with h | ⟨r, hr, hg⟩
+  · exact Or.inl h
+  · refine Or.inr ⟨r, hr, ?_⟩
+    have : t.xmlFuel = r.xmlFuel := by simp only [Tree.xmlFuel, hr]
+    rw [this]
+    exact hg.okNode_xmlFuel
+
+/-- **`wbxml2xml` is total**: success or a non-zero error code, for every option tuple (arbitrary
+    language tables included) and every input. -/
+theorem wbxml2xml_safe (cfg : W2XCfg) (bs : Bytes) : Safe (wbxml2xml cfg bs) := by
+  rcases wbxml2xml_anatomy cfg bs with ⟨_, h⟩ | ⟨c, hc0, _, h⟩ | ⟨t, ht, h⟩
+  · rw [h]; exact (by decide : (12 : Nat) ≠ 0)
+  · rw [h]; exact hc0
+  · rw [h]; exact treeToXml_xmlFuel_safe cfg t (treeOfWbxml_good cfg.main _ _ _ _ _ ht)
 
 end Wbxml.Lemmas.ParserSafe
